@@ -3,6 +3,7 @@ package main
 import (
 	"fmt"
 	"go/ast"
+	"go/types"
 	"path/filepath"
 	"sort"
 	"strings"
@@ -41,6 +42,36 @@ type lockCtx struct {
 	fileMeth map[string]bool
 	known    map[string]bool // scripted function names (bare)
 	param    string          // name of the func-typed parameter of the current function
+	fileParm map[string]bool // parameters of the current function whose type is File
+}
+
+// fileRecv classifies the receiver of a File method call by its *type* (names are free to change):
+// an expression of interface type File is a backend File; a field selection keeps its text
+// ("ref.file": the reference it belongs to is what the guards are matched against), a File-typed
+// parameter is "from" (its guard is established by the caller), any other local is "sf" – a File
+// that no fid is bound to yet.
+func (c *lockCtx) fileRecv(x ast.Expr) (string, bool) {
+	tv, ok := c.p.info.Types[x]
+	if !ok || tv.Type == nil {
+		return "", false
+	}
+	nt, ok := tv.Type.(*types.Named)
+	if !ok || nt.Obj().Name() != "File" {
+		return "", false
+	}
+	if _, ok := nt.Underlying().(*types.Interface); !ok {
+		return "", false
+	}
+	switch y := x.(type) {
+	case *ast.Ident:
+		if c.fileParm[y.Name] {
+			return "from", true
+		}
+		return "sf", true
+	case *ast.SelectorExpr:
+		return norm(src(x)), true
+	}
+	return "sf", true
 }
 
 func mutexName(x ast.Expr) string {
@@ -97,9 +128,11 @@ func (c *lockCtx) callEvents(x *ast.CallExpr, out *[]lev) {
 		}
 		c.exprEvents(f.X, out)
 		recv := norm(src(f.X))
-		if c.fileMeth[name] && (strings.HasSuffix(recv, ".file") || recv == "sf" || recv == "nsf" || recv == "from" || recv == "xf" || recv == "file") {
-			*out = append(*out, lev{kind: "backend", a: name, b: recv})
-			return
+		if c.fileMeth[name] {
+			if label, ok := c.fileRecv(f.X); ok {
+				*out = append(*out, lev{kind: "backend", a: name, b: label})
+				return
+			}
 		}
 		if c.known[name] {
 			e := lev{kind: "call", a: name, b: recv}
@@ -322,9 +355,14 @@ func genLocks(p *pkgInfo, repo, out string) {
 	sb.WriteString("structure LEv where\n  kind : String\n  a : String\n  b : String\n  sub : List LEv\nderiving Repr\n\n")
 	var items []string
 	for _, f := range fns {
-		c := &lockCtx{p: p, fileMeth: fileMeth, known: known}
+		c := &lockCtx{p: p, fileMeth: fileMeth, known: known, fileParm: map[string]bool{}}
 		if f.fd.Type.Params != nil {
 			for _, prm := range f.fd.Type.Params.List {
+				if id, ok := prm.Type.(*ast.Ident); ok && id.Name == "File" {
+					for _, nm := range prm.Names {
+						c.fileParm[nm.Name] = true
+					}
+				}
 				if _, ok := prm.Type.(*ast.FuncType); ok && len(prm.Names) > 0 {
 					c.param = prm.Names[0].Name
 				}
